@@ -101,8 +101,12 @@ func (cfg *Config) NewParser(parentLogger logger.Logger, allocator *base.LogAllo
 
 // VerifyConfig checks configuration
 func (cfg *Config) VerifyConfig(schema base.LogSchema) error {
-	if _, _, err := net.SplitHostPort(cfg.Address); err != nil {
+	_, port, err := net.SplitHostPort(cfg.Address)
+	if err != nil {
 		return fmt.Errorf(".address has invalid format: %w", err)
+	}
+	if _, perr := net.LookupPort("tcp", port); perr != nil {
+		return fmt.Errorf(".address has invalid port: %w", perr)
 	}
 
 	if len(cfg.LevelMapping) == 0 {
